@@ -197,6 +197,8 @@ def apply_rules(card, sig, body, log):
     run('X6', R.x6_for_ref)
     run('X19', R.x19_copy_within)
     run('X13', R.x13_bool_or_assign)
+    if 'optq' not in card.opts:
+        run('X22', R.x22_try_result)
     for (rule, old, new) in card.bodysubs:
         if old not in body:
             raise AnchorLost('%s: bodysub anchor %r lost' % (card.id, old))
@@ -326,6 +328,7 @@ def emit_fn(card, repo, out, info, twin=False):
         if not done:
             raise AnchorLost('%s: hint %s anchor %r lost' % (fid, hname, anchor))
     hint_text = {h[0]: h[4] for h in card.hints}
+    first_body_line = len(out.lines)
     body_hash = hashlib.sha256()
     for kind, text in hinted:
         if kind == 'body':
@@ -342,15 +345,13 @@ def emit_fn(card, repo, out, info, twin=False):
         else:
             out.add(text.rstrip(), {'fn': fid, 'part': kind})
     if twin:
-        # reachability twin: the function must FAIL this assertion
-        # inserted before the body's final closing brace
-        last = len(out.lines) - 1
-        while out.lines[last].strip() == '':
-            last -= 1
-        ln = out.lines[last]
-        idx = ln.rindex('}')
-        out.lines[last] = ln[:idx] + ' proof { assert(false); } ' + ln[idx:]
-        out.meta[last] = {'fn': fid, 'part': 'twin'}
+        # reachability twin: with `assert(false)` as the first statement the function must FAIL
+        # (it can only pass if the preconditions are contradictory)
+        k = first_body_line
+        ln = out.lines[k]
+        idx = ln.index('{')
+        out.lines[k] = ln[:idx + 1] + ' proof { assert(false); } ' + ln[idx + 1:]
+        out.meta[k] = {'fn': fid, 'part': 'twin'}
     rec['out_sha256'] = body_hash.hexdigest()
     info['functions'].append(rec)
 
